@@ -541,6 +541,21 @@ func BVCmp(op string, a, b *Term) *Term {
 	if a == b {
 		return BoolConst(op == "bvule" || op == "bvsle")
 	}
+	// a string length (0 <= len < 2^63) against a constant: compare in the integer domain (string solvers handle
+	// str.len arithmetic natively; the int2bv round trip makes them give up)
+	if (op == "bvslt" || op == "bvsle") && a.Sort.W == 64 {
+		isLen := func(t *Term) bool { return t.Op == "int2bv" && t.Args[0].Op == "str.len" }
+		iop := "<="
+		if op == "bvslt" {
+			iop = "<"
+		}
+		if isLen(a) && b.IsConst() {
+			return App(iop, BoolSort, a.Args[0], IntConst(b.SVal()))
+		}
+		if a.IsConst() && isLen(b) {
+			return App(iop, BoolSort, IntConst(a.SVal()), b.Args[0])
+		}
+	}
 	// comparisons of ite-of-constants against constants fold through
 	if b.IsConst() && a.Op == "ite" && a.Args[1].IsConst() && a.Args[2].IsConst() {
 		return Ite(a.Args[0], BVCmp(op, a.Args[1], b), BVCmp(op, a.Args[2], b))
